@@ -64,6 +64,11 @@ type jdataset struct {
 	// DropShards: every shard is deleted again (Store.DeleteShard), as retention does; the
 	// database keeps its series file but has no shard
 	DropShards bool `json:"drop_all_shards,omitempty"`
+	// Late: after the deletes, listing queries under an allow-everything fine authorizer are run
+	// for every measurement and key (they fill each shard's tag-value series-id cache), and then
+	// shard i receives ONE more write batch Late[i] of series new to it (Store.WriteToShard ->
+	// Index.CreateSeriesListIfNotExists maintains the cached sets); no reopen
+	Late [][]jseries `json:"late,omitempty"`
 }
 
 type jexpr struct {
@@ -211,6 +216,34 @@ func newEnv(d jdataset) *env {
 			must(e.st.DeleteShard(uint64(i + 1)))
 		}
 	}
+	if len(d.Late) > 0 {
+		all := &fineAuth{allowed: map[string]bool{}}
+		for _, s := range allSeries() {
+			all.allowed[s.key()] = true
+		}
+		var ids []uint64
+		for i := range d.Shards {
+			ids = append(ids, uint64(i+1))
+		}
+		warm := &influxql.BinaryExpr{Op: influxql.EQREGEX, LHS: &influxql.VarRef{Val: "_tagKey"}, RHS: &influxql.RegexLiteral{Val: regexp.MustCompile(`.*`)}}
+		for _, id := range ids { // per shard and over all shards
+			_, err := e.st.TagValues(ctx, all, []uint64{id}, warm)
+			must(err)
+		}
+		_, err := e.st.TagValues(ctx, all, ids, warm)
+		must(err)
+		for i, ss := range d.Late {
+			var pts []models.Point
+			for j, s := range ss {
+				pt, err := models.NewPoint(s.Name, s.tags(), models.Fields{"f": float64(j)}, time.Unix(int64(i)*1000+2, 0))
+				must(err)
+				pts = append(pts, pt)
+			}
+			if len(pts) > 0 {
+				must(e.st.WriteToShard(ctx, uint64(i+1), pts))
+			}
+		}
+	}
 	return e
 }
 
@@ -269,6 +302,13 @@ func modelShards(d jdataset) []mshard {
 			}
 		}
 	}
+	defer func() { // the late batches arrive after everything else (ghosts are decided before)
+		for i := range out {
+			if i < len(d.Late) {
+				out[i].all = append(append([]jseries{}, out[i].all...), d.Late[i]...)
+			}
+		}
+	}()
 	for i := range out {
 		for _, s := range out[i].byOp {
 			for j := range out {
@@ -679,6 +719,11 @@ func run(w *vh.W, e *env, c *jcase) {
 	w.Count("nonempty_answer", fmt.Sprint(nonEmpty))
 	w.Count("known_finding_shape", sig)
 	w.Count("cache_ghosts_in_selection", fmt.Sprint(nGhost))
+	nLate := 0
+	for _, l := range c.Data.Late {
+		nLate += len(l)
+	}
+	w.Count("late_batch_series", fmt.Sprint(nLate/4*4)+"+")
 	w.Count("has_filter", fmt.Sprint(q.Filt != nil || q.Cond != nil))
 }
 
@@ -742,6 +787,35 @@ func genDataset(w *vh.W) jdataset {
 	// whole-measurement deletes first (a measurement delete after a series delete can leave
 	// partially cached ghosts, which the model does not describe)
 	sort.SliceStable(d.Ops, func(i, j int) bool { return d.Ops[i].Kind == "meas" && d.Ops[j].Kind != "meas" })
+	if r.IntN(3) != 0 {
+		// late write batches: series new to the shard, of measurements that still live there
+		// (a measurement re-created after its drop is C14's subject)
+		ms := modelShards(d)
+		d.Late = make([][]jseries, n)
+		for i := 0; i < n; i++ {
+			liveMeas := map[string]bool{}
+			inShard := map[string]bool{}
+			for _, s := range ms[i].all {
+				inShard[s.key()] = true
+				dead := false
+				for _, x := range ms[i].dead {
+					if x.key() == s.key() {
+						dead = true
+					}
+				}
+				if !dead {
+					liveMeas[s.Name] = true
+				}
+			}
+			r.Shuffle(len(all), func(a, b int) { all[a], all[b] = all[b], all[a] })
+			want := 4 + r.IntN(4)
+			for _, s := range all {
+				if len(d.Late[i]) < want && !inShard[s.key()] && liveMeas[s.Name] {
+					d.Late[i] = append(d.Late[i], s)
+				}
+			}
+		}
+	}
 	return d
 }
 
@@ -895,7 +969,7 @@ func mk(name string, kv ...string) jseries {
 
 func main() {
 	w := vh.New("C42", "From Coq Require Import String.\nFrom Verif Require Import Base.Prelude Model.C15 Model.C42.\nOpen Scope string_scope.", "case", "check")
-	w.Rule = "one case = (dataset, authorizer, query). Dataset: 2-3 shards of one database in a real tsdb.Store, each holding a random subset (10-50%) of 2 measurements x {k1,k2} x {absent,a,b}, then 0-4 deletes (whole-measurement deletes first, then single series; in one shard through Shard.DeleteSeriesRange/DeleteMeasurement or in all through Store.DeleteSeries/DeleteMeasurement). Authorizer: nil, query.OpenAuthorizer, or a fine authorizer allowing a random 0/30/50/80/100% of the series. Query: MeasurementNames (cond nil or a depth<=3 expression over tag and _name comparisons), TagKeys / TagValues over a random non-empty subset of the shards (sometimes plus an unknown shard id) with a condition assembled like statement_rewriter.go from an optional _name part, an optional/required _tagKey part (=, !=, =~, !~, IN) and an optional tag filter. ~60 queries per store. Hand-picked first: the stale-listing shapes and the AND/!= measurement-level semantics. Non-trivial: >= 2 shards selected and a non-empty answer. Distinct: distinct Gallina terms."
+	w.Rule = "one case = (dataset, authorizer, query). Dataset: 2-3 shards of one database in a real tsdb.Store, each holding a random subset (10-50%) of 2 measurements x {k1,k2} x {absent,a,b}, then 0-4 deletes (whole-measurement deletes first, then single series; in one shard through Shard.DeleteSeriesRange/DeleteMeasurement or in all through Store.DeleteSeries/DeleteMeasurement). Authorizer: nil, query.OpenAuthorizer, or a fine authorizer allowing a random 0/30/50/80/100% of the series. Query: MeasurementNames (cond nil or a depth<=3 expression over tag and _name comparisons), TagKeys / TagValues over a random non-empty subset of the shards (sometimes plus an unknown shard id) with a condition assembled like statement_rewriter.go from an optional _name part, an optional/required _tagKey part (=, !=, =~, !~, IN) and an optional tag filter. In 2/3 of the datasets the store then answers listing queries for every measurement/key (filling the tag-value series-id caches) and every shard receives ONE more write batch of 4-7 series new to it before the judged queries (live index, no reopen). ~60 queries per store. Hand-picked first: the stale-listing shapes and the AND/!= measurement-level semantics. Non-trivial: >= 2 shards selected and a non-empty answer. Distinct: distinct Gallina terms."
 	for _, p := range patterns {
 		compiled = append(compiled, regexp.MustCompile(p))
 	}
